@@ -925,6 +925,7 @@ type Denotation struct {
 	Final    *Cmd
 	Passed   bool
 	Unknowns int
+	Broken   string // the item list leaves the domain of the denotation (e.g. a command word after a remaining argument)
 }
 
 func Denote(d *Decl, items []*Item) *Denotation {
@@ -958,6 +959,10 @@ func Denote(d *Decl, items []*Item) *Denotation {
 		case ITerm:
 			w.passed = true
 		case ICmd:
+			if w.rest || len(w.pending) > 0 || w.passed {
+				w.exp.Chain = w.cur.Chain()
+				return &Denotation{Exp: w.exp, Final: w.cur, Passed: w.passed, Unknowns: w.unknowns, Broken: "command word after a remaining argument or pending positional"}
+			}
 			w.enter(it.Cmd)
 		case IFault:
 			// only pass-through faults take part in a denotation
